@@ -212,6 +212,21 @@ CLAIMED["C19"] = {
     "ref": "DESIGN.md section 5 (C19)",
 }
 
+CLAIMED["C20"] = {
+    "text": "Proof on the real source text of the non-Linux layers (never imported; native modules are stubs): the five "
+            "exception-translating wrappers (FreeBSD, macOS, SunOS, AIX, Windows) against an abstract wrapped function "
+            "for every fault in {ESRCH, ENOENT, EPERM, EACCES, EIO, EINVAL, Windows access codes, non-OSError} x zombie or "
+            "not x PID 0 or not: NoSuchProcess/ZombieProcess/AccessDenied carry the pid and the cached name object, other "
+            "errors pass through with class and errno unchanged, with the one documented PID-0 exception on BSD/SunOS; "
+            "accessors of BSD/macOS/Windows return the documented tuple class filled from the matching record slots "
+            "(pairwise distinct symbolic slots; Windows memory record incl. its permission-error fallback); the front-end "
+            "net_if_addrs under WINDOWS=True/False (computed broadcast takes effect, MAC padding). Table obligations: "
+            "gids()/uids() tuple classes in all five modules, FreeBSD C producer slot order and uid/gid field binding.",
+    "note": "native layers themselves are outside reach; accessor coverage is a subset of each platform's methods; "
+            "__all__/documentation availability not checked.",
+    "ref": "DESIGN.md section 5 (C20)",
+}
+
 NOT_YET = "check not built yet (work in progress, see DESIGN.md section 7)"
 NA = {}
 
